@@ -640,6 +640,133 @@ class GpioInst(ClientInst):
         return (i, m, e, l, we, dat)
 
 
+class GpioSyncInst(GpioInst):
+    """GPIOIn / GPIOTristate with_irq against the Lean `gpioSync` model (MultiReg + `_GPIOIRQ` + EventManager): the model
+    gets the RAW pad values of the letter (before the synchroniser) and computes `_in.status`, the triggers and all
+    event-manager outputs itself; only the mode/edge configuration registers are fed from the real storage."""
+
+    def __init__(self, name, core, npads, dw, stim, gen_stim, ordering="big", pads_alphabet=None, masks=(0, 1),
+                 edge_ops=True):
+        GpioInst.__init__(self, name + "/raw pads" + ("/exhaustive" if pads_alphabet is not None else ""), core, npads,
+                          dw, stim, gen_stim, ordering)
+        self.lean_open = "gpiosync %d %d %d" % (dw, 1 if ordering == "little" else 0, npads)
+        self.qual = [None] * 7
+        self.npads = npads
+        if pads_alphabet is not None:           # mode A: letters without the cycle number
+            v = self.view
+            ids = [id(c) for c in self.top.bank.simple_csrs]
+            mode = ids.index(id(core._mode.simple_csrs[0]))
+            edge = ids.index(id(core._edge.simple_csrs[0]))
+            full = (1 << npads) - 1
+            ops = [(v.idle_adr(), 0, 0, 0)]
+            ops += [(v.bus_adr(v.local_index(1, 0)), 1, m, 0) for m in masks if m]
+            ops += [(v.bus_adr(v.local_index(2, 0)), 1, full, 0)]
+            ops += [(mode, 1, m, 0) for m in (0, full)]
+            if edge_ops:
+                ops += [(edge, 1, m, 0) for m in (0, full)]
+            self.alphabet = [(0, p) + op for p in pads_alphabet for op in ops]
+
+    def apply(self, letter):
+        ClientInst.apply(self, letter)
+        n, c = self.netlist, self.core
+        self.cur = (letter[1], n.getu(c._mode.storage), n.getu(c._edge.storage))
+        self.trig_log[letter[0]] = self.cur
+
+    def sample(self):
+        outs = GpioInst.sample(self)
+        self.last_in_status = self.netlist.getu(self.core._in.status)
+        return outs + [self.last_in_status]
+
+    def model_letter(self, letter):
+        l, we, dat = self.bus_of(letter)
+        i, m, e = self.cur if self.alphabet else self.trig_log[letter[0]]
+        return (i, m, e, l, we, dat)
+
+
+class SyncDelayMonitor:
+    """Oracle for the synchroniser in front of the GPIO event logic, on top of the lost-event monitor: `_in.status` is
+    the raw pad vector of two cycles earlier (0 during the first two cycles), independent of everything else."""
+
+    def __init__(self, inst):
+        self.inst = inst
+        self.base = LostEventMonitor(inst.view, lambda: inst.last_obs, inst.bus_of, strict=True, foreign_reads=True)
+        self.hist = [0, 0]
+
+    def observe(self, letter, outs):
+        m = self.base.observe(letter, outs)
+        if m:
+            return m
+        got = self.inst.last_in_status
+        if got != self.hist[0]:
+            return "_in.status=%#x but the pads were %#x two cycles earlier" % (got, self.hist[0])
+        self.hist = [self.hist[1], letter[1]]
+        return None
+
+
+GpioSyncInst.monitor = lambda self: SyncDelayMonitor(self)
+
+
+class TimerInst(ClientInst):
+    """Timer against the Lean `timer` model (down counter + ev.zero + EventManager): the model computes the trigger
+    `value == 0` itself from the `_en` / `_load` / `_reload` storage values of every cycle (fed from the real
+    registers); the real trigger is an additional compared output."""
+
+    def __init__(self, name, core, dw, gen_bus=None, ordering="big", small=None):
+        ClientInst.__init__(self, name + "/counter modelled" + ("/exhaustive" if small is not None else ""), core, ["r"],
+                            dw, [], lambda rng, t: (), gen_bus, ordering)
+        self.lean_open = "timer %d %d" % (dw, 1 if ordering == "little" else 0)
+        self.qual = [None] * 6
+        self.cur = None
+        if small is not None:                   # mode A
+            v = self.view
+            ids = [id(c) for c in self.top.bank.simple_csrs]
+            ix = lambda reg: ids.index(id(reg.simple_csrs[0]))
+            ops = [(v.idle_adr(), 0, 0, 0), (v.bus_adr(v.local_index(1, 0)), 1, 1, 0), (v.bus_adr(v.local_index(2, 0)), 1, 1, 0)]
+            ops += [(ix(core._en), 1, m, 0) for m in (0, 1)]
+            ops += [(ix(core._load), 1, m, 0) for m in small] + [(ix(core._reload), 1, m, 0) for m in small]
+            self.alphabet = [(0,) + op for op in ops]
+
+    def apply(self, letter):
+        ClientInst.apply(self, letter)
+        n, c = self.netlist, self.core
+        self.cur = (n.getu(c._en.storage), n.getu(c._load.storage), n.getu(c._reload.storage))
+        self.trig_log[letter[0]] = self.cur
+
+    def sample(self):
+        outs = ClientInst.sample(self)
+        return outs + [vec(self.last_obs["trig"])]
+
+    def model_letter(self, letter):
+        l, we, dat = self.bus_of(letter)
+        en, ld, rl = self.cur if self.alphabet else self.trig_log[letter[0]]
+        return (en, ld, rl, l, we, dat)
+
+
+class TimerZeroMonitor:
+    """Timer oracle on top of the lost-event monitor: a reference down counter (reset 0; enabled: 0 -> reload, else
+    minus one; disabled: load) driven by the values of the real `_en`/`_load`/`_reload` registers; the zero trigger
+    must be high exactly when the reference counter is 0."""
+
+    def __init__(self, inst):
+        self.inst = inst
+        self.base = LostEventMonitor(inst.view, lambda: inst.last_obs, inst.bus_of, strict=True, foreign_reads=True)
+        self.val = 0
+
+    def observe(self, letter, outs):
+        m = self.base.observe(letter, outs)
+        if m:
+            return m
+        trig = self.inst.last_obs["trig"][0]
+        if trig != (1 if self.val == 0 else 0):
+            return "zero trigger = %d but the reference counter holds %d" % (trig, self.val)
+        en, ld, rl = self.inst.cur
+        self.val = ((rl if self.val == 0 else self.val - 1) if en else ld)
+        return None
+
+
+TimerInst.monitor = lambda self: TimerZeroMonitor(self)
+
+
 class UartRxMonitor:
     """UART client oracle on top of the lost-event monitor: the rx event is "the rx FIFO has a character"; writing a
     one to its pending bit pops exactly one character one cycle later (with rx_fifo_rx_we also a bus read of rxtx).
@@ -696,6 +823,47 @@ class UartInst(ClientInst):
 
     def monitor(self):
         return UartRxMonitor(self, self.rx_we)
+
+
+class UartFullInst(UartInst):
+    """UART against the Lean `uart` model (tx/rx FIFO levels + ev.tx/ev.rx + EventManager): the model computes both
+    triggers, the rx pop, `sink.ready`, `source.valid` and the FIFO levels itself from the stimulus (sink.valid,
+    source.ready) and the bus letter (`_rxtx.re` = bus write to rxtx, `_rxtx.we` = bus read strobe on rxtx, derived
+    here from the address of rxtx in the bank)."""
+
+    def __init__(self, name, core, dw, stim, gen_stim, gen_bus, rx_we, txd, rxd, ordering="big", small=False):
+        tag = "/fifos modelled" + ("" if not small else "/exhaustive" + ("" if small is True else " " + small + " path"))
+        UartInst.__init__(self, name + tag, core, dw, stim, gen_stim, gen_bus, rx_we, ordering)
+        self.lean_open = "uart %d %d %d %d %d" % (dw, 1 if ordering == "little" else 0, txd, rxd, 1 if rx_we else 0)
+        self.qual = [None] * 11
+        ids = [id(c) for c in self.top.bank.simple_csrs]
+        self.rxtx = ids.index(id(core._rxtx))
+        if small:                               # mode A: data always 0 (stale FIFO memory would multiply states)
+            v = self.view
+            ops = [(v.idle_adr(), 0, 0, 0), (self.rxtx, 1, 0, 0), (v.bus_adr(v.local_index(1, 0)), 1, 2, 0),
+                   (v.bus_adr(v.local_index(1, 0)), 1, 1, 0), (v.bus_adr(v.local_index(2, 0)), 1, 3, 0)]
+            if rx_we:
+                ops.append((self.rxtx, 0, 0, 1))
+            srs = (0, 1)
+            if small == "rx":                   # receive path only: characters arrive, software acknowledges rx
+                ops = [ops[0], ops[2], (v.bus_adr(v.local_index(2, 0)), 1, 2, 0)] + ops[5:]
+                srs = (0,)
+            elif small == "tx":                 # transmit path only: software sends, the PHY takes characters
+                ops = [ops[0], ops[1], ops[3], (v.bus_adr(v.local_index(2, 0)), 1, 1, 0)]
+            svs = (0,) if small == "tx" else (0, 1)
+            self.alphabet = [(0, sv, 0, sr) + op for sv in svs for sr in srs for op in ops]
+
+    def sample(self):
+        outs = UartInst.sample(self)
+        n, c = self.netlist, self.core
+        return outs + [vec(self.last_obs["trig"]), n.getu(c.sink.ready), n.getu(c.source.valid),
+                       n.getu(c.rx_fifo.source.ready), n.getu(c.tx_fifo.level), n.getu(c.rx_fifo.level)]
+
+    def model_letter(self, letter):
+        t, sv, sd, sr, adr, we, dat, re = letter
+        l, _, _ = self.bus_of(letter)
+        hit = adr == self.rxtx
+        return (sv, sr, 1 if (hit and we) else 0, 1 if (hit and re) else 0, l, we, dat)
 
 
 # ---------------------------------------------------------------------------------------------------------
@@ -849,3 +1017,225 @@ class GlueInst:
             self._queue = seq
             bus = (adr, 1, dat)
         return trigs + bus
+
+
+# ---------------------------------------------------------------------------------------------------------
+# SoC level: a REAL `SoCCore` with a stub CPU (an `interrupt` vector, a wishbone master, reserved lines), peripherals
+# with event managers registered through `soc.irq.add`, `SoC.do_finalize` wiring `cpu.interrupt[loc] = ev.irq`
+
+_STUB = {}
+
+
+def stub_cpu_class():
+    """A CPU for `SoC.add_cpu` that is only its interface (no netlist): interrupt vector, one wishbone master."""
+    if "cls" in _STUB:
+        return _STUB["cls"]
+    from litex.soc.cores import cpu as CPUM
+    from litex.soc.interconnect import wishbone
+
+    class C15StubCPU(CPUM.CPU):
+        category, family, name, human_name = "softcore", "stub", "c15stub", "c15stub"
+        variants = ["standard"]
+        data_width = 32
+        endianness = "little"
+        gcc_triple, linker_output_format, nop = "none", "none", "nop"
+        io_regions = {0x8000_0000: 0x8000_0000}
+        mem_map = {"csr": 0xf000_0000}
+        reset_address_check = False
+        RESERVED = {}
+
+        def __init__(self, platform, variant="standard"):
+            self.platform, self.variant = platform, variant
+            self.reset = Signal()
+            self.interrupt = Signal(32)
+            self.ibus = wishbone.Interface(data_width=32, address_width=32, addressing="word")
+            self.periph_buses = [self.ibus]
+            self.memory_buses = []
+            self.interrupts = {}
+            self.reserved_interrupts = dict(C15StubCPU.RESERVED)
+
+        def set_reset_address(self, a):
+            self.reset_address = a
+
+    CPUM.CPUS["c15stub"] = C15StubCPU
+    _STUB["cls"] = C15StubCPU
+    return C15StubCPU
+
+
+class SocPeriph(Module, AutoCSR):
+    def __init__(self, kinds):
+        self.ev = evm.EventManager()
+        self.made_sources = [make_source(kind, "e%d" % k) for k, kind in enumerate(kinds)]
+        for k, src in enumerate(self.made_sources):
+            setattr(self.ev, "e%d" % k, src)
+        self.submodules += self.ev
+        self.ev.finalize()
+
+
+def expected_irq_numbers(n_irqs, reserved, reqs):
+    """The documented numbering, recomputed here independently of /repo and of the Lean model: CPU lines first, a
+    requested number as given, otherwise the lowest free number."""
+    used = set(reserved)
+    out = []
+    for r in reqs:
+        if r is None:
+            r = min(x for x in range(n_irqs) if x not in used)
+        used.add(r)
+        out.append(r)
+    return out
+
+
+class SocMonitor:
+    """cpu.interrupt bit `expected number of peripheral j` == that manager's irq (== OR(pending & enable) of its real
+    registers, checked by its lost-event monitor); every other bit is 0."""
+
+    def __init__(self, inst):
+        self.inst = inst
+        self.mons = [LostEventMonitor(v, (lambda j=j: inst.last_obs[j]), (lambda l, j=j: inst.cur_bus[j]))
+                     for j, v in enumerate(inst.views)]
+
+    def observe(self, letter, outs):
+        inst = self.inst
+        vecv = outs[0]
+        exp = 0
+        for j, o in enumerate(inst.last_obs):
+            p, e = o["pstat"], o["en"]
+            if (p & e) != 0:
+                exp |= 1 << inst.want_locs[j]
+        if vecv != exp:
+            return "cpu.interrupt=%#x but pending&enable of the managers at lines %s gives %#x" % (vecv, inst.want_locs, exp)
+        for j, m in enumerate(self.mons):
+            r = m.observe(letter, None)
+            if r:
+                return "manager %d (line %d): %s" % (j, inst.want_locs[j], r)
+        return None
+
+
+class SocIrqInst:
+    """letter = (trig_0 … trig_{m-1}, wb.adr, wb.we, wb.dat_w, wb.stb): the triggers of every peripheral and the stub
+    CPU's wishbone master (through the real interconnect, CSR bridge, CSR interconnect and banks).  Model `socIrq`:
+    every manager gets the access that its own CSR bank sees in that cycle (sampled at the bank's bus port), and the
+    interrupt numbers come from the model's own `irqAlloc` on the same request list."""
+
+    def __init__(self, kinds_list, reqs, reserved=None, csr_dw=32, n_irqs=32, names=None, ordering="big"):
+        from litex.soc.integration.soc_core import SoCCore
+        from litex.build.sim.platform import SimPlatform
+        from litex.build.generic_platform import Pins
+        cls = stub_cpu_class()
+        reserved = dict(reserved or {})
+        cls.RESERVED = reserved
+        plat = SimPlatform("SIM", [("sys_clk", 0, Pins(1)), ("sys_rst", 0, Pins(1))])
+        soc = SoCCore(plat, clk_freq=int(1e6), cpu_type="c15stub", integrated_rom_size=0x100,
+                      integrated_sram_size=0x100, with_uart=False, with_timer=False, with_ctrl=False,
+                      csr_data_width=csr_dw, csr_ordering=ordering, irq_n_irqs=n_irqs)
+        cls.RESERVED = {}
+        names = names or ["p%d" % j for j in range(len(kinds_list))]
+        self.periphs = []
+        for name, kinds, r in zip(names, kinds_list, reqs):
+            p = SocPeriph(kinds)
+            setattr(soc, name, p)
+            if r is None:
+                soc.irq.add(name)
+            else:
+                soc.irq.add(name, r)
+            self.periphs.append(p)
+        soc.finalize()
+        self.soc, self.top = soc, soc
+        self.netlist = Netlist(soc)
+        self.want_locs = expected_irq_numbers(n_irqs, reserved.values(), reqs)
+        rmap = {name: bank for name, csrs, mapaddr, bank in soc.csr_bankarray.banks}
+        self.views = []
+        self.pages = []
+        for name, p, kinds in zip(names, self.periphs, kinds_list):
+            bank = rmap[name]
+            page = soc.csr.locs[name]
+            self.pages.append(page)
+            self.views.append(EvView(p.ev, bank, bank.bus, kinds, page, ordering, dw=csr_dw, srcs=p.made_sources))
+        self.csr_base = soc.bus.regions["csr"].origin
+        self.name = "SoCCore+stub CPU[%s] irq requests %s reserved %s/csr%d" % (
+            " | ".join(kinds_text(ks) for ks in kinds_list), list(reqs), sorted(reserved.values()), csr_dw)
+        self.reqs, self.reserved, self.n_irqs = list(reqs), reserved, n_irqs
+        self.cfg_text = " | ".join("%d %d %s" % (csr_dw, 1 if ordering == "little" else 0, " ".join(ks))
+                                   for ks in kinds_list)
+        self.lean_open = None            # set by `prepare` (needs the model's own numbering)
+        self.qual = [None] * (1 + 5 * len(self.views))
+        self.inputs = self.outputs = None
+        self.alphabet = []
+        self.last_obs = None
+        self.cur_bus = None
+        self.bus_log = {}
+        self._op = None
+        self._t = 0
+
+    def alloc_request(self):
+        return "irqalloc %d %s / %s" % (self.n_irqs, " ".join(str(x) for x in self.reserved.values()),
+                                        " ".join("a" if r is None else str(r) for r in self.reqs))
+
+    def set_locs(self, locs):
+        self.model_locs = list(locs)
+        self.lean_open = "soc 32 %s | %s" % (" ".join(str(x) for x in locs), self.cfg_text)
+
+    def wb_adr(self, view, local):
+        return (self.csr_base + view.page * 0x800 + view.index_of_local[local] * 4) >> 2
+
+    def apply(self, letter):
+        n, nv = self.netlist, len(self.views)
+        for j, v in enumerate(self.views):
+            for k, s in enumerate(v.srcs):
+                n.set(s.trigger, (letter[j] >> k) & 1)
+        wb = self.soc.cpu.ibus
+        adr, we, dat, stb = letter[nv:nv + 4]
+        n.set(wb.adr, adr)
+        n.set(wb.we, we)
+        n.set(wb.dat_w, dat)
+        n.set(wb.sel, 0xf)
+        n.set(wb.stb, stb)
+        n.set(wb.cyc, stb)
+        n.settle()
+        self.cur_bus = [(v.model_adr(n.getu(v.bus.adr)), n.getu(v.bus.we), n.getu(v.bus.dat_w)) for v in self.views]
+        self.ack = n.getu(wb.ack)
+
+    def sample(self):
+        n = self.netlist
+        self.last_obs = [v.observe(n) for v in self.views]
+        outs = [n.getu(self.soc.cpu.interrupt)]
+        for v, o in zip(self.views, self.last_obs):
+            outs += v.outs(o)
+        self.bus_log[self._t] = self.cur_bus
+        self._t += 1
+        return outs
+
+    def model_letter(self, letter):
+        nv = len(self.views)
+        t = letter[nv + 4]
+        out = []
+        for j in range(nv):
+            l, we, dat = self.bus_log[t][j]
+            out += [letter[j], l, we, dat]
+        return tuple(out)
+
+    def nontrivial(self, letter, outs):
+        return bool(outs[0] or any(b[1] for b in self.cur_bus))
+
+    def monitor(self):
+        return SocMonitor(self)
+
+    def gen(self, rng, t):
+        if t == 0:
+            self._op, self._t, self.ack, self.bus_log = None, 0, 0, {}
+        trigs = tuple(rng.getrandbits(v.n) if rng.random() < 0.3 else 0 for v in self.views)
+        if self._op is not None and self.ack:
+            self._op = None                       # the access of the previous cycle was acknowledged
+            return trigs + (0, 0, 0, 0, t)
+        if self._op is None and rng.random() < 0.6:
+            v = rng.choice(self.views)
+            x = rng.random()
+            if x < 0.25:
+                self._op = (self.wb_adr(v, rng.randrange(3 * v.nw)), 0, 0, 1)
+            elif x < 0.3:
+                self._op = ((self.csr_base >> 2) + rng.getrandbits(12), rng.randint(0, 1), rng.getrandbits(8), 1)
+            else:
+                reg = 1 if rng.random() < 0.55 else 2
+                value = rng.choice([1 << rng.randrange(v.n), rng.getrandbits(v.n), (1 << v.n) - 1])
+                self._op = (self.wb_adr(v, v.local_index(reg, 0)), 1, value, 1)
+        return trigs + (self._op or (0, 0, 0, 0)) + (t,)
